@@ -228,10 +228,11 @@ func main() {
 	}
 	w1s := []writer{
 		{"P:lock(b);set(b)", true, []txnh.Op{op("lock", "b"), op("set", "b"), commit}},
+		{"lock-only(a);lock-only(c);set(b)", false, []txnh.Op{op("lock", "a"), op("lock", "c"), op("set", "b"), commit}},
 		{"set(b);set(d)", false, []txnh.Op{op("set", "b"), op("set", "d"), commit}},
 	}
 	if !run.Thorough() {
-		w1s = w1s[:1]
+		w1s = w1s[:2]
 	}
 	var jobs []sched.Job
 	specs := map[string]func() *txnh.TxnScenario{}
@@ -246,6 +247,9 @@ func main() {
 					for _, lo := range common.Layouts(run.Thorough()) {
 						if !mock && !run.Thorough() && lo.Name != "1region" {
 							continue
+						}
+						if !mock && strings.HasPrefix(w1.name, "lock-only") {
+							continue // unistore keeps no commit record for lock-only keys (DESIGN R3)
 						}
 						bk, m, w0, w1, lo, mock := bk, m, w0, w1, lo, mock
 						name := fmt.Sprintf("%s/%s/%s/W0=%s/W1=%s", bk.Name, lo.Name, m, w0.name, w1.name)
